@@ -74,7 +74,7 @@ def run_suite(seed, n, max_nodes=18, kinds=None, corpus=(), unique_fns=False):
     stats = {'cases': 0, 'steps': 0, 'calls': 0, 'errors': {}, 'kinds': {}, 'nontrivial': 0, 'distinct': set(),
              'model_errors': 0, 'den_mismatch': 0, 'sizes': {},
              'thm_instances': 0, 'thm_contradicted': 0, 'thm_hyp_false': 0,
-             'decode_instances': 0, 'decode_vs_real_mismatch': 0, 'decode_bad': []}
+             'cached_thm_instances': 0, 'cached_thm_contradicted': 0, 'decode_instances': 0, 'decode_vs_real_mismatch': 0, 'decode_bad': []}
     for (case, steps), ans in zip(cases, answers):
         stats['cases'] += 1
         real = run_case_real(case, steps)
@@ -115,6 +115,13 @@ def run_suite(seed, n, max_nodes=18, kinds=None, corpus=(), unique_fns=False):
                         stats['thm_contradicted'] += 1
                 elif 'graph_ok' in m:
                     stats['thm_hyp_false'] += 1
+                # instances of CM.C04.full_spec_along_history with the faithfulness hypothesis discharged by C05: graphs with
+                # cache edges that are plain, on exact (disk-like) stores only, after any history of the same case
+                if m.get('cached_ok') and m.get('call_ok') and not m.get('graph_ok'):
+                    stats['cached_thm_instances'] += 1
+                    user = isinstance(m['r'].get('err'), str) and m['r']['err'].startswith('user:') and st.get('fail_at')
+                    if not user and canon(m['den']) != canon(m['r']):
+                        stats['cached_thm_contradicted'] += 1
                 # instances of CM.C05.hash_determines_value against the REAL value: on a plain graph the value the real
                 # code returns must be decode(hash of the output), the hash being compared with the real one in hash steps
                 if st['t'] == 'call' and m.get('decoded') is not None and 'ok' in r.get('r', {}):
